@@ -749,26 +749,29 @@ def check_if_from_stdin(path: str, check: bool, force: bool) -> bool:
     return False
 
 
-def files_from_file(path: str | None, node: str | None = None) -> set[ArchiveFile]:
+def files_from_file(
+    path: str | None, node: str | None = None
+) -> set[ArchiveFile] | None:
     """Read a file list from a file given with --file-list
 
-    Returns a set of ArchiveFiles.
+    Returns a set of ArchiveFiles, or None if no file list was given.
+    (An empty set means a file list was given, but it lists no files.)
 
     Parameters
     ----------
     path:
-        The path to the file to read.  If this is None, the empty set is returned.
+        The path to the file to read.  If this is None, None is returned.
     node:
         If not None, the name of the source StorageNode, whose root will be
         removed from the files, if present.  (If `node` is None, only relative
         paths will be accepted.)
     """
 
-    files = set()
-
-    # Not given; return empty set
+    # Not given: no restriction
     if not path:
-        return files
+        return None
+
+    files = set()
 
     # Fetch node.root, if necessary
     if node:
